@@ -190,4 +190,44 @@ def nlsf2a (nlsf : List Int) : Res (List Int) :=
     let r := lpcFit a32 5
     pure (nlsf2aLoop SilkNlsf.maxLpcStabilizeIterations 0 r.2 r.1)
 
+/-! ### operands of the `(opus_int16)` casts (used by the range theorem `lpc_fit_int16` and, for the
+     tie, to report how many casts truncated on a given input) -/
+
+/-- The operands of the `(opus_int16)` casts of `silk_LPC_fit` (LPC_fit.c:72-81), `QIN-QOUT = 5`:
+    `silk_SAT16( silk_RSHIFT_ROUND( a_QIN[k], 5 ) )` when all 10 iterations were used, otherwise
+    `silk_RSHIFT_ROUND( a_QIN[k], 5 )`. -/
+def lpcFitCasts (a : List Int) : List Int :=
+  let r := lpcFitLoop 5 10 a 0
+  if r.2 then r.1.map fun x => sat16 (rshiftRound x 5) else r.1.map fun x => rshiftRound x 5
+
+/-- The operands of the `(opus_int16)` casts `silk_RSHIFT_ROUND( a32_QA1[k], QA + 1 - 12 )`
+    executed by the stabilisation loop of `silk_NLSF2A` (NLSF2A.c:131-138), all iterations. -/
+def nlsf2aLoopCasts : Nat → Nat → List Int → List Int → List Int
+  | 0, _, _, _ => []
+  | n + 1, i, a32, aQ12 =>
+    if lpcInversePredGain aQ12 = 0 then
+      let a32' := bwexpander32 a32 (65536 - lshift32 2 i)
+      a32'.map (fun a => rshiftRound a 5) ++ nlsf2aLoopCasts n (i + 1) a32' (requantQ12 a32')
+    else []
+
+/-- All operands of `(opus_int16)` casts in `silk_NLSF2A` for a given `a32_QA1` (those of
+    silk_LPC_fit, then those of the stabilisation loop). -/
+def nlsf2aCasts (a32 : List Int) : List Int :=
+  lpcFitCasts a32 ++ nlsf2aLoopCasts SilkNlsf.maxLpcStabilizeIterations 0 (lpcFit a32 5).2 (lpcFit a32 5).1
+
+/-- Number of cast operands that do not survive the conversion to `opus_int16`. -/
+def truncCount (l : List Int) : Nat := (l.filter fun v => wrap16 v != v).length
+
+/-- `silk_NLSF2A` together with the number of its `(opus_int16)` casts that truncate. -/
+def nlsf2aTr (nlsf : List Int) : Res (List Int × Nat) :=
+  let d := nlsf.length
+  if d ≠ 10 ∧ d ≠ 16 then .abort
+  else do
+    let ordering := if d = 16 then ordering16 else ordering10
+    let vals ← cosLsfAll nlsf
+    let cosQA := (List.range d).map fun j => vals.getD (ordering.idxOf j) 0
+    let a32 := nlsf2aPoly cosQA
+    let r := lpcFit a32 5
+    pure (nlsf2aLoop SilkNlsf.maxLpcStabilizeIterations 0 r.2 r.1, truncCount (nlsf2aCasts a32))
+
 end Opus.SilkParams
